@@ -30,6 +30,37 @@ abbrev RGeom := Geom Rat
 /-- |a − b| < e, written without an absolute value -/
 def near (a b e : Rat) : Bool := decide (a - b < e ∧ b - a < e)
 
+/-! Compiled form of `near` (same function, proved equal; `@[csimp]` = used by the compiler only):
+the two rational subtractions normalise their results (two gcds each, through GMP in the Lean
+runtime); the comparison is decided on cross-multiplied integers instead. -/
+
+theorem div_mul_swap (a b c : Rat) : a / b * c = a * c / b := by
+  rw [Rat.div_def, Rat.div_def, Rat.mul_assoc, Rat.mul_comm b⁻¹ c, ← Rat.mul_assoc]
+
+theorem mkRat_lt_iff (n : Int) (d : Nat) (hd : 0 < d) (e : Rat) :
+    mkRat n d < e ↔ n * e.den < e.num * d := by
+  have hd' : (0 : Rat) < (d : Rat) := Rat.natCast_pos.2 hd
+  have he' : (0 : Rat) < (e.den : Rat) := Rat.natCast_pos.2 e.den_pos
+  have he : e = (e.num : Rat) / (e.den : Rat) := by rw [← Rat.mkRat_eq_div, Rat.mkRat_self]
+  rw [Rat.mkRat_eq_div, Rat.div_lt_iff hd']
+  conv => lhs; rhs; rw [he]
+  rw [div_mul_swap, Rat.lt_div_iff he']
+  rw [← Rat.intCast_natCast, ← Rat.intCast_natCast, ← Rat.intCast_mul, ← Rat.intCast_mul, Rat.intCast_lt_intCast]
+
+def nearC (a b e : Rat) : Bool :=
+  let n := a.num * b.den - b.num * a.den
+  let d := a.den * b.den
+  let m := e.num * d
+  decide (n * e.den < m ∧ -n * e.den < m)
+
+@[csimp] theorem near_eq_C : @near = @nearC := by
+  funext a b e
+  have hd : 0 < a.den * b.den := Nat.mul_pos a.den_pos b.den_pos
+  have h1 : a - b < e ↔ (a.num * b.den - b.num * a.den) * e.den < e.num * ((a.den * b.den : Nat) : Int) := by
+    rw [Rat.sub_def', mkRat_lt_iff _ _ hd]
+  have h2 : b - a < e ↔ -(a.num * b.den - b.num * a.den) * e.den < e.num * ((a.den * b.den : Nat) : Int) := by
+    rw [← Rat.neg_sub, Rat.sub_def', Rat.neg_mkRat, mkRat_lt_iff _ _ hd]
+  simp only [near, nearC, h1, h2]
 def ptNear (p q : P) (e : Rat) : Bool := near p.x q.x e && near p.y q.y e
 
 /-- same number of vertices and every pair of corresponding vertices within tolerance -/
@@ -49,6 +80,45 @@ def ringNear (a b : List P) (e : Rat) : Bool :=
     (if a.length ≤ 1 then ptsNear a b e
      else (List.range (a.length - 1)).any fun k => ptsNear (cyc a) (rot k (cyc b)) e)
 
+/-! Compiled form of `ringNear` (same function, proved equal; `@[csimp]` = used by the compiler
+only): the cycles are computed once and a rotation is only built when its first vertex fits. -/
+
+/-- first vertices within tolerance (true when either list is empty) -/
+def headNear : List P → List P → Rat → Bool
+  | p :: _, q :: _, e => ptNear p q e
+  | _, _, _ => true
+
+def ringNearC (a b : List P) (e : Rat) : Bool :=
+  a.length == b.length &&
+    (if a.length ≤ 1 then ptsNear a b e
+     else
+      let ca := cyc a
+      let cb := cyc b
+      (List.range (a.length - 1)).any fun k => headNear ca (cb.drop k) e && ptsNear ca (rot k cb) e)
+
+theorem headNear_of_ptsNear (ca cb : List P) (k : Nat) (e : Rat) (h : ptsNear ca (rot k cb) e = true) :
+    headNear ca (cb.drop k) e = true := by
+  cases ca with
+  | nil => simp [headNear]
+  | cons c cs =>
+    cases hd : cb.drop k with
+    | nil => simp [headNear]
+    | cons d ds =>
+      simp only [headNear]
+      simp only [ptsNear, rot, hd, List.cons_append, List.zip_cons_cons, List.all_cons, Bool.and_eq_true] at h
+      exact h.2.1
+
+@[csimp] theorem ringNear_eq_C : @ringNear = @ringNearC := by
+  funext a b e
+  unfold ringNear ringNearC
+  congr 1
+  split
+  · rfl
+  · congr 1
+    funext k
+    cases h : ptsNear (cyc a) (rot k (cyc b)) e with
+    | false => simp
+    | true => simp [headNear_of_ptsNear _ _ _ _ h]
 /-- all ways of taking one element out of a list -/
 def picks {β : Type} : List β → List (β × List β)
   | [] => []
@@ -59,6 +129,36 @@ def picks {β : Type} : List β → List (β × List β)
 def existsMatching {β : Type} : List (β → Bool) → List β → Bool
   | [], ys => ys.isEmpty
   | p :: ps, ys => (picks ys).any fun yr => p yr.1 && existsMatching ps yr.2
+
+/-! Compiled form of `existsMatching` (same function, proved equal, used only by the compiler via
+`@[csimp]`): `picks` materialises every "list without its j-th element" (n² cells per level) even
+though almost all candidates are rejected by `p`; the loop below builds the remainder only for an
+accepted candidate. The judge evaluates member lists of 130 members. -/
+
+def emGo {β : Type} (rec : List β → Bool) (p : β → Bool) : List β → List β → Bool
+  | _, [] => false
+  | pre, y :: ys => (p y && rec (pre.reverseAux ys)) || emGo rec p (y :: pre) ys
+
+def existsMatchingC {β : Type} : List (β → Bool) → List β → Bool
+  | [], ys => ys.isEmpty
+  | p :: ps, ys => emGo (existsMatchingC ps) p [] ys
+
+theorem emGo_eq {β : Type} (rec : List β → Bool) (p : β → Bool) (pre ys : List β) :
+    emGo rec p pre ys = (picks ys).any fun yr => p yr.1 && rec (pre.reverse ++ yr.2) := by
+  induction ys generalizing pre with
+  | nil => simp [emGo, picks]
+  | cons y ys ih =>
+    simp only [emGo, picks, List.any_cons, List.any_map, ih, List.reverseAux_eq]
+    congr 1
+    simp [Function.comp_def]
+
+@[csimp] theorem existsMatching_eq_C : @existsMatching = @existsMatchingC := by
+  funext β ps
+  induction ps with
+  | nil => funext ys; simp [existsMatching, existsMatchingC]
+  | cons p ps ih =>
+    funext ys
+    simp only [existsMatching, existsMatchingC, emGo_eq, List.reverse_nil, List.nil_append, ih]
 
 /-- `ps[i] ys[i]` for all `i`, equal lengths (Prop form, used to state `existsMatching` declaratively) -/
 def AllHold {β : Type} : List (β → Bool) → List β → Prop
@@ -139,6 +239,50 @@ def separated : RGeom → Rat → RGeom → Bool
 def separatedL : List RGeom → Rat → List (RGeom → Bool)
   | [], _ => []
   | g :: gs, e => separated g e :: separatedL gs e
+end
+
+/-! ### "DISTINCT members are separated" — repeated (indistinguishable) members allowed
+
+The quantifier of the property speaks of *distinct* members being separated by much more than the
+tolerance. A geometry may hold the same member twice (two identical line strings, the same ring
+twice …): such copies are not distinct members, and which copy is paired with which partner does
+not matter. `blockRel` is the decidable reading: any two members of one side have either exactly
+the same candidate partners on the other side (they are interchangeable) or no candidate in
+common. (`sepRel` is the special case in which no two members are interchangeable.) -/
+
+/-- no position at which both rows hold -/
+def disjointRows : List Bool → List Bool → Bool
+  | a :: r, b :: s => !(a && b) && disjointRows r s
+  | _, _ => true
+
+/-- row `i` = which members of `ys` are candidates of `ps[i]` -/
+def candRows {β : Type} (ps : List (β → Bool)) (ys : List β) : List (List Bool) := ps.map fun p => ys.map p
+
+def blockRel {β : Type} (ps : List (β → Bool)) (ys : List β) : Bool :=
+  let m := candRows ps ys
+  m.all fun r => m.all fun s => disjointRows r s || r == s
+
+mutual
+/-- `separated` with `blockRel` in the place of `sepRel`, at every nesting level -/
+def blockSeparated : RGeom → Rat → RGeom → Bool
+  | .multiLineString ls, e, h => match h with
+    | .multiLineString ls' => blockRel (ls.map fun l => fun l' => ptsNear l l' e) ls'
+    | _ => true
+  | .polygon rs, e, h => match h with
+    | .polygon rs' => blockRel (ringPreds rs e) rs'
+    | _ => true
+  | .multiPolygon ps, e, h => match h with
+    | .multiPolygon ps' =>
+      blockRel (ps.map fun p => fun p' => polygonNear p p' e) ps' &&
+        ps.all fun p => ps'.all fun p' => blockRel (ringPreds p e) p'
+    | _ => true
+  | .collection gs, e, h => match h with
+    | .collection hs => blockRel (specSimL gs e) hs && (blockSeparatedL gs e).all fun s => hs.all s
+    | _ => true
+  | _, _, _ => true
+def blockSeparatedL : List RGeom → Rat → List (RGeom → Bool)
+  | [], _ => []
+  | g :: gs, e => blockSeparated g e :: blockSeparatedL gs e
 end
 
 /-! ### the transformations named in the statement (used to state the theorems) -/
